@@ -3,10 +3,11 @@ package main
 import (
 	"fmt"
 	"go/ast"
+	"go/constant"
 	"go/parser"
 	"go/token"
+	"go/types"
 	"path/filepath"
-	"strconv"
 )
 
 // Facts for C14 (tokens): constants of internal/handshake's token code and the age rules of server.go /
@@ -61,36 +62,131 @@ func init() {
 		}
 		w.P("/-- config.go `maxRetryTokenAge`: body is `return c.handshakeTimeout()` -/")
 		w.P("def maxRetryTokenAgeIsHandshakeTimeout : Bool := true")
-		// transport.go: `if maxTokenAge == 0 { maxTokenAge = 24 * time.Hour }`
-		tr, err := parser.ParseFile(token.NewFileSet(), filepath.Join(c.Repo, "transport.go"), nil, 0)
+		// root package: the default of Transport.MaxTokenAge.  Semantic shape (no local names, no file, no literal form):
+		// an `if X == 0 { X = <constant> }` where X is the exported field Transport.MaxTokenAge itself or a
+		// variable / field that was assigned from it in the same function.
+		root, err := c.Load(".")
 		if err != nil {
 			return err
 		}
-		var hours int64 = -1
-		ast.Inspect(tr, func(n ast.Node) bool {
-			as, ok := n.(*ast.AssignStmt)
-			if !ok || as.Tok != token.ASSIGN || len(as.Lhs) != 1 || len(as.Rhs) != 1 {
-				return true
-			}
-			if id, ok := as.Lhs[0].(*ast.Ident); !ok || id.Name != "maxTokenAge" {
-				return true
-			}
-			if be, ok := as.Rhs[0].(*ast.BinaryExpr); ok && be.Op == token.MUL {
-				l, ok1 := be.X.(*ast.BasicLit)
-				s, ok2 := be.Y.(*ast.SelectorExpr)
-				if ok1 && ok2 && l.Kind == token.INT && s.Sel.Name == "Hour" {
-					if pk, ok := s.X.(*ast.Ident); ok && pk.Name == "time" {
-						hours, _ = strconv.ParseInt(l.Value, 10, 64)
-					}
+		objOf := func(e ast.Expr) types.Object {
+			switch x := e.(type) {
+			case *ast.Ident:
+				if o := root.Info.Uses[x]; o != nil {
+					return o
+				}
+				return root.Info.Defs[x]
+			case *ast.SelectorExpr:
+				if sel := root.Info.Selections[x]; sel != nil {
+					return sel.Obj()
 				}
 			}
-			return true
-		})
-		if hours < 0 {
-			return fmt.Errorf("transport.go: default `maxTokenAge = <n> * time.Hour` not found")
+			return nil
+		}
+		isSource := func(e ast.Expr) bool {
+			if p, ok := e.(*ast.ParenExpr); ok {
+				e = p.X
+			}
+			se, ok := e.(*ast.SelectorExpr)
+			if !ok || se.Sel.Name != "MaxTokenAge" {
+				return false
+			}
+			sel := root.Info.Selections[se]
+			if sel == nil {
+				return false
+			}
+			t := sel.Recv()
+			if pt, ok := t.(*types.Pointer); ok {
+				t = pt.Elem()
+			}
+			nt, ok := t.(*types.Named)
+			return ok && nt.Obj().Name() == "Transport"
+		}
+		var defaults []int64
+		for _, f := range root.Files {
+			for _, d := range f.Decls {
+				fd, ok := d.(*ast.FuncDecl)
+				if !ok || fd.Body == nil {
+					continue
+				}
+				tainted := map[types.Object]bool{}
+				ast.Inspect(fd.Body, func(n ast.Node) bool {
+					switch st := n.(type) {
+					case *ast.AssignStmt:
+						if len(st.Lhs) == len(st.Rhs) {
+							for i := range st.Lhs {
+								if isSource(st.Rhs[i]) {
+									if o := objOf(st.Lhs[i]); o != nil {
+										tainted[o] = true
+									}
+								}
+							}
+						}
+					case *ast.ValueSpec:
+						if len(st.Names) == len(st.Values) {
+							for i := range st.Names {
+								if isSource(st.Values[i]) {
+									if o := objOf(st.Names[i]); o != nil {
+										tainted[o] = true
+									}
+								}
+							}
+						}
+					}
+					return true
+				})
+				isX := func(e ast.Expr) bool {
+					if isSource(e) {
+						return true
+					}
+					o := objOf(e)
+					return o != nil && tainted[o]
+				}
+				ast.Inspect(fd.Body, func(n ast.Node) bool {
+					is, ok := n.(*ast.IfStmt)
+					if !ok {
+						return true
+					}
+					be, ok := is.Cond.(*ast.BinaryExpr)
+					if !ok || be.Op != token.EQL {
+						return true
+					}
+					x, z := be.X, be.Y
+					if tv, ok := root.Info.Types[x]; ok && tv.Value != nil {
+						x, z = z, x
+					}
+					tv, ok := root.Info.Types[z]
+					if !ok || tv.Value == nil || !isX(x) {
+						return true
+					}
+					if zv, ok := constant.Int64Val(constant.ToInt(tv.Value)); !ok || zv != 0 {
+						return true
+					}
+					for _, bs := range is.Body.List {
+						as, ok := bs.(*ast.AssignStmt)
+						if !ok || as.Tok != token.ASSIGN || len(as.Lhs) != 1 || len(as.Rhs) != 1 || !isX(as.Lhs[0]) {
+							continue
+						}
+						if rv, ok := root.Info.Types[as.Rhs[0]]; ok && rv.Value != nil {
+							if v, ok := constant.Int64Val(constant.ToInt(rv.Value)); ok {
+								defaults = append(defaults, v)
+							}
+						}
+					}
+					return true
+				})
+			}
+		}
+		if len(defaults) == 0 {
+			return fmt.Errorf("root package: no `if X == 0 { X = <constant> }` for Transport.MaxTokenAge found")
+		}
+		for _, v := range defaults {
+			if v != defaults[0] {
+				return fmt.Errorf("root package: Transport.MaxTokenAge is defaulted to different constants: %v", defaults)
+			}
 		}
 		w.P("/-- transport.go: default of Transport.MaxTokenAge when zero (ns) -/")
-		w.P("def defaultMaxTokenAge : Int := %d", hours*3600*1_000_000_000)
+		w.P("def defaultMaxTokenAge : Int := %d", defaults[0])
 		return nil
 	})
 }
